@@ -1,12 +1,15 @@
 ENTRY = {
     "C19": {
         "pkg": ".", "hdir": "dastard", "harness": DASTARD_COMMON + ["zz_verif_files_test.go", "zz_verif_c19_test.go"], "test": "TestVerifC19",
-        "quick": T(16, 60), "thorough": T(16, 600),
+        "quick": T(16, 120), "thorough": T(16, 600),
         "rule": "one execution = one source configuration (Lancero: active cards, columns, rows, FirstRow, ChanSepColumns, ChanSepCards; Abaco: set, arrival order and "
                 "producer assignment of channel groups; generic/Triangle/SimPulse/Roach: channel count) through the real PrepareChannels (Abaco: real Sample first) and "
                 "PrepareRun; names, numbers, groups and row/column codes compared with the geometry the harness configured, accepted Lancero separations re-checked "
-                "against an independent literal numbering, overlapping Abaco groups must be rejected; for small configurations the real WriteControl START / "
-                "PublishData / STOP writes LJH22 (and LJH3) files whose names and decoded headers are compared with the reported identity; "
+                "against an independent literal numbering, overlapping Abaco groups must be rejected; for small configurations of every source type the real WriteControl START / "
+                "PublishData (one tagged record per stream) / STOP runs with every non-empty set of file types out of LJH22, LJH3, OFF (OFF with projectors loaded on all streams; "
+                "the OFF-only START also with projectors on every other stream only): the run directory must hold one file per (stream, type) that wrote a record, named for the "
+                "stream's reported name, and the decoded LJH22 / LJH3 / OFF header (name, index, number, source, rows, columns, row, column, channel count, subframe fields, as far "
+                "as the format records them) and the one record in it must be those of that stream; "
                 "non-trivial = the configuration was accepted and has at least 2 streams",
         "assumptions": ["Lancero geometry (devnum, columns, rows per card) is set directly because sampleCard needs hardware; RoachSource.nchan is set directly because samplePacket needs a UDP socket",
                         "Abaco packets come from fake PacketProducers built with the real packets constructors; all groups measure the same sample rate",
@@ -14,6 +17,8 @@ ENTRY = {
                         "group position as column, group size as rows, number of groups as columns",
                         "groups 'cover exactly' = the union of the reported [Firstchan, Firstchan+Nchan) ranges equals the set of channel numbers in use and the ranges are disjoint",
                         "rejecting a collision-free configuration is not a violation (counted in the evidence); exact Lancero numbers are not prescribed, only collision freedom",
-                        "subframe offsets/divisions are compared between file header and source tables only; their physical correctness is not part of C19 (deviations are counted)"],
+                        "subframe offsets/divisions are compared between file header and source tables only; their physical correctness is not part of C19 (deviations are counted)",
+                        "output files are named <run prefix>_<reported stream name>.<ljh|ljh3|off> (data_source.go, 'file names from channel name'); a stream without projectors writes no OFF file; "
+                        "projectors are a 2 x nsamp matrix (first sample, sum of samples), so the first OFF coefficient identifies the stream that wrote the record"],
     },
 }
